@@ -823,6 +823,7 @@ static std::vector<Opts> plan(const std::string& name) {
     p.push_back({{"scope", "pairs"}, {"nmin", "3"}, {"nmax", "4"}, {"cyclic", "0"}, {"wo", "20"}, {"ws", "20"}, {"rects", "30,30 50,50;20,20 60,60"}});
     p.push_back({{"scope", "rectil"}, {"nmin", "4"}, {"nmax", "10"}, {"sub", "4"}, {"rects", RREC44}});
     p.push_back({{"scope", "rectil"}, {"nmin", "4"}, {"nmax", "10"}, {"sub", "4"}, {"rects", RREC44}, {"sx", "140"}, {"sy", "60"}});
+    p.push_back({{"scope", "poly"}, {"nmin", "3"}, {"nmax", "5"}, {"cyclic", "1"}, {"sub", "4"}, {"rects", "20,20 40,40;20,10 40,30;10,20 30,40"}, {"lo", "900"}, {"hi", "150"}, {"probes", "0"}});
     p.push_back({{"scope", "rectil"}, {"nmin", "4"}, {"nmax", "8"}, {"sub", "5"}, {"rects", "full"}});
     p.push_back({{"scope", "walks"}, {"len", "6"}, {"wo", "0"}, {"ws", "40"}, {"rects", RB40}});
     p.push_back({{"scope", "poly"}, {"nmin", "3"}, {"nmax", "4"}, {"cyclic", "0"}, {"rects", "quick"}, {"probes", "0"}});
